@@ -591,6 +591,78 @@ Theorem C11x_compose_truncate_zone_refuted :         (* C11-TRUNC-BEFORE-TZ: ole
 Proof. exact YProofsCompWitness.comp_trunc_zone_refuted. Qed.
 Print Assumptions C11x_compose_truncate_zone_refuted.
 
+(** * The weak composition in BOTH list modes: what is empty under F stays empty under a larger option set G (the default
+      mode for every opcode oracle whose lists tile, exclude_types off on both sides; no threshold hypothesis). *)
+From DD Require Options.YProofsCompEmpty Options.YMemo Options.YProofsMemo.
+Theorem C11x_compose_empty_partial :
+  forall udiff ops c F G, YProofsComp.ole F G ->
+  forall KU SU LU : YValue.atom -> Prop,
+  (forall x y, SU x -> SU y -> YModel.hatomF F x = YModel.hatomF F y ->
+     YModel.hatomF G x = YModel.hatomF G y /\ YModel.excl_hash G x = YModel.excl_hash G y) ->
+  (forall a b, LU a -> LU b -> YProofsComp.pair_ok F G a b) ->
+  (YValue.zip c = true \/ (YModel.o_excl F = nil /\ YModel.o_excl G = nil /\
+     forall p xs ys, YProofsLists.tiles (ops p xs ys) 0 0 (length xs) (length ys) = true)) ->
+  forall t1 t2 r rG,
+  YProofsCompStruct.stable c F G t1 = true -> YProofsCompStruct.stable c F G t2 = true ->
+  YProofsMono.atoms_in KU SU LU t1 -> YProofsMono.atoms_in KU SU LU t2 ->
+  YModel.run_optF udiff ops c F t1 t2 = YModel.Ok (nil, r) -> YModel.run_optF udiff ops c G t1 t2 = YModel.Ok rG -> fst rG = nil.
+Proof. exact YProofsCompEmpty.comp_empty_run. Qed.
+Print Assumptions C11x_compose_empty_partial.
+
+(** * The DeepHash memo table (finding K2 = C11-MEMO-SET) inside the model: [YMemo.diffM] is the dispatcher with the run's table
+      threaded through the traversal (lookup by == BEFORE _skip_this; t1's members, then t2's; dict children in the order of
+      t2's keys).  Where no two set members are ==-equal with different hash text / exclusion ([alias_freeP]) the table
+      changes nothing: all C11x theorems about [run_optF] are theorems about the run with the table.  Where aliases exist
+      the two differ (refuted), and the correspondence check ties [run_memoF] to the implementation on exactly those inputs. *)
+Theorem C11x_memo_agrees_partial :
+  forall udiff ops c F (SU : YValue.atom -> Prop), YProofsMemo.alias_freeP F SU ->
+  forall t2 t1 m p1 p2,
+  YProofsCompStruct.stable c F F t1 = true -> YProofsCompStruct.stable c F F t2 = true ->
+  YProofsMono.atoms_in (fun _ => True) SU (fun _ => True) t1 -> YProofsMono.atoms_in (fun _ => True) SU (fun _ => True) t2 ->
+  YProofsMemo.memo_okP F SU m ->
+  YProofsMemo.simR F SU (YMemo.diffM udiff ops c F m t1 t2 p1 p2) (YModel.diffF udiff ops c F t1 t2 p1 p2).
+Proof. exact YProofsMemo.diffM_sim. Qed.
+Print Assumptions C11x_memo_agrees_partial.
+
+Theorem C11x_memo_agrees_empty_partial :
+  forall udiff ops c F (SU : YValue.atom -> Prop), YProofsMemo.alias_freeP F SU ->
+  forall t1 t2,
+  YProofsCompStruct.stable c F F t1 = true -> YProofsCompStruct.stable c F F t2 = true ->
+  YProofsMono.atoms_in (fun _ => True) SU (fun _ => True) t1 -> YProofsMono.atoms_in (fun _ => True) SU (fun _ => True) t2 ->
+  ((exists e, YMemo.run_memoF udiff ops c F t1 t2 = YModel.Err e) <-> (exists e, YModel.run_optF udiff ops c F t1 t2 = YModel.Err e)) /\
+  ((exists ps, YMemo.run_memoF udiff ops c F t1 t2 = YModel.Ok (nil, ps)) <-> (exists ps, YModel.run_optF udiff ops c F t1 t2 = YModel.Ok (nil, ps))).
+Proof. exact YProofsMemo.run_memoF_empty. Qed.
+Print Assumptions C11x_memo_agrees_empty_partial.
+
+Theorem C11x_memo_agrees_no_dict_partial :      (* without dicts: the very same result, entry order included *)
+  forall udiff ops c F (SU : YValue.atom -> Prop), YProofsMemo.alias_freeP F SU ->
+  forall t1 t2, YProofsMemo.nodict t1 = true -> YProofsMemo.nodict t2 = true ->
+  YProofsMono.atoms_in (fun _ => True) SU (fun _ => True) t1 -> YProofsMono.atoms_in (fun _ => True) SU (fun _ => True) t2 ->
+  YMemo.run_memoF udiff ops c F t1 t2 = YModel.run_optF udiff ops c F t1 t2.
+Proof. exact YProofsMemo.run_memoF_nodict. Qed.
+Print Assumptions C11x_memo_agrees_no_dict_partial.
+
+Theorem C11x_memo_alias_refuted :               (* {1} against {1.0}: two reports without the table, none with it *)
+  YProofsMemo.mm_kinds (YModel.run_optF YProofsMemo.mm_ud YProofsMemo.mm_ops YProofsMemo.mm_c YModel.no_opts
+     (YValue.VSet (YValue.AInt 1 :: nil)) (YValue.VSet (YValue.AFloat 1 0 :: nil))) = Some (YValue.KSetAdd :: YValue.KSetRem :: nil) /\
+  YProofsMemo.mm_kinds (YMemo.run_memoF YProofsMemo.mm_ud YProofsMemo.mm_ops YProofsMemo.mm_c YModel.no_opts
+     (YValue.VSet (YValue.AInt 1 :: nil)) (YValue.VSet (YValue.AFloat 1 0 :: nil))) = Some nil /\
+  ~ YProofsMemo.alias_free YModel.no_opts (YValue.AInt 1 :: YValue.AFloat 1 0 :: nil).
+Proof. exact YProofsMemo.memo_alias_refuted. Qed.
+Print Assumptions C11x_memo_alias_refuted.
+
+Theorem C11x_memo_alias_excluded_refuted :      (* exclude_types=[float]: {1.0} vs {1} is reported, unless a 1 was hashed earlier in the run *)
+  YProofsMemo.mm_kinds (YMemo.run_memoF YProofsMemo.mm_ud YProofsMemo.mm_ops YProofsMemo.mm_c YProofsMemo.MFxfloat
+     (YValue.VSet (YValue.AFloat 1 0 :: nil)) (YValue.VSet (YValue.AInt 1 :: nil))) = Some (YValue.KSetAdd :: nil) /\
+  YProofsMemo.mm_kinds (YModel.run_optF YProofsMemo.mm_ud YProofsMemo.mm_ops YProofsMemo.mm_c YProofsMemo.MFxfloat
+     (YValue.VList (YValue.VSet (YValue.AInt 1 :: nil) :: YValue.VSet (YValue.AFloat 1 0 :: nil) :: nil))
+     (YValue.VList (YValue.VSet (YValue.AInt 1 :: nil) :: YValue.VSet (YValue.AInt 1 :: nil) :: nil))) = Some (YValue.KSetAdd :: nil) /\
+  YProofsMemo.mm_kinds (YMemo.run_memoF YProofsMemo.mm_ud YProofsMemo.mm_ops YProofsMemo.mm_c YProofsMemo.MFxfloat
+     (YValue.VList (YValue.VSet (YValue.AInt 1 :: nil) :: YValue.VSet (YValue.AFloat 1 0 :: nil) :: nil))
+     (YValue.VList (YValue.VSet (YValue.AInt 1 :: nil) :: YValue.VSet (YValue.AInt 1 :: nil) :: nil))) = Some nil.
+Proof. exact YProofsMemo.memo_alias_excluded_refuted. Qed.
+Print Assumptions C11x_memo_alias_excluded_refuted.
+
 (** * The two models agree: [emb] embeds the shared universe into the extended one (half-integer floats to dyadic
       rationals in lowest terms, other atoms identical), [embF] the option records (the new options off,
       default_timezone UTC), [embC] the configuration, [embRes] results (entries, paths, values); the extended model on
